@@ -1041,6 +1041,8 @@ def register(I):
         """evaluate an iterator with pending adaptors -> ([(st', items)...], [(st_p, Panic)...]).
         Closure calls are threaded through the state; forks inside a closure (several outcomes, conditional
         panics) split the evaluation into several paths."""
+        if isinstance(it, GuardedIter):
+            raise Unsupported("iterator with conditionally present items driven by a consumer other than count")
         if isinstance(it, UnorderedIter) and not unordered_ok and I.hash_order is None and len(it.items) > 1:
             raise Unsupported("result depends on HashMap iteration order (consumer is not order-insensitive)")
         paths = [(st, list(it.items))]
@@ -1144,7 +1146,38 @@ def register(I):
 
     @reg("Iterator::count")
     def it_count(I, st, args, info):
+        it0 = deref_all(I, args[0], st)
+        if isinstance(it0, GuardedIter) and not it0.ops:
+            # elements present under guards (str::matches, filter with a symbolic predicate): the count is a sum
+            gs = [g for g, _ in it0.items]
+            if all(g is True or g is False for g in gs):
+                return sum(1 for g in gs if g is True)
+            acc = z3.BitVecVal(0, 64)
+            for g in gs:
+                if g is False:
+                    continue
+                acc = acc + (z3.BitVecVal(1, 64) if g is True else z3.If(g, z3.BitVecVal(1, 64), z3.BitVecVal(0, 64)))
+            return acc
         return consume(I, args[0], st, lambda items, s2: len(items))
+
+    @reg("<impl str>::matches")
+    def str_matches(I, st, args, info):
+        v = deref_all(I, args[0], st)
+        if not isinstance(v, StrSlice):
+            items = tuple(as_str_items(I, v, st))
+            v = StrSlice(SymBuf(items, name="owned"), 0, len(items))
+        pv = deref_all(I, args[1], st)
+        if not is_scalar(pv):
+            raise Unsupported("str::matches with a non-character pattern")
+        out = []
+        for i, c in enumerate(v.chars()):
+            if isinstance(c, Seg):
+                continue            # a formatted number contains digits only: it cannot match a non-digit pattern
+            g = chr_eq(c, pv) if isinstance(pv, int) else I.sym_eq(c, pv)
+            out.append((g, StrSlice(v.buf, v.start + i, v.start + i + 1)))
+        if isinstance(pv, int) and 48 <= pv <= 57 and any(isinstance(c, Seg) for c in v.chars()):
+            raise Unsupported("str::matches for a digit in text with formatted numbers")
+        return GuardedIter(out)
 
     @reg("Iterator::last")
     def it_last(I, st, args, info):
@@ -1907,6 +1940,306 @@ def register(I):
             return SliceV(tuple("".join(map(chr, items)).encode("utf-8")))
         raise Unsupported("as_bytes of symbolic text")
 
+    # ----------------------------------------------------------------- batch 3: caches, locks, environment, more strings
+    def inner_ptr(I, st, r, what):
+        if isinstance(r, Ref):
+            return Ref(r.key, tuple(r.path) + (("field", 0, None),)), I.read_ref(r, st).fields[0]
+        raise Unsupported("%s through a snapshot reference" % what)
+
+    @reg("Mutex::new", "RwLock::new")
+    def lock_new(I, st, args, info):
+        return Adt("Cell", None, [args[0]])
+
+    @reg("Mutex::lock", "RwLock::read", "RwLock::write", "Mutex::try_lock")
+    def lock_lock(I, st, args, info):
+        """single-threaded execution: locks are always free; poisoning does not occur (no panic while held is modelled)"""
+        r = args[0]
+        if isinstance(r, Ref):
+            ptr = Ref(r.key, tuple(r.path) + (("field", 0, None),))
+        else:
+            ptr = ValRef(deref_all(I, r, st).fields[0])
+        return res_ok(Adt("RefGuard", None, [ptr]))
+
+    @reg("OnceLock::new", "OnceCell::new")
+    def once_new(I, st, args, info):
+        return Adt("Cell", None, [OPT_NONE])
+
+    @reg("OnceLock::get", "OnceCell::get")
+    def once_get(I, st, args, info):
+        cur = deref_all(I, args[0], st).fields[0]
+        return umap(lambda o: opt_some(ValRef(o.fields[0])) if o.variant == "Some" else OPT_NONE, cur)
+
+    @reg("OnceLock::set", "OnceCell::set")
+    def once_set(I, st, args, info):
+        ptr, cur = inner_ptr(I, st, args[0], "OnceLock::set")
+        outs = []
+        for g, o in alts_of(cur):
+            st2 = st.fork(g)
+            if o.variant == "Some":
+                outs.append((st2, res_err(args[1])))
+            else:
+                I.write_cell(ptr.key, ptr.path, opt_some(args[1]), st2)
+                outs.append((st2, res_ok(())))
+        return outs
+
+    @reg("OnceLock::get_or_init", "OnceCell::get_or_init")
+    def once_get_or_init(I, st, args, info):
+        ptr, cur = inner_ptr(I, st, args[0], "OnceLock::get_or_init")
+        outs = []
+        for g, o in alts_of(cur):
+            if g is not True and not I.feasible(st.pc, g):
+                continue
+            st2 = st.fork(g)
+            if o.variant == "Some":
+                outs.append((st2, ValRef(o.fields[0])))
+                continue
+            for s3, v in I.call_value(args[1], [], st2):
+                if isinstance(v, Panic):
+                    outs.append((s3, v))
+                else:
+                    I.write_cell(ptr.key, ptr.path, opt_some(v), s3)
+                    outs.append((s3, ValRef(v)))
+        return outs
+
+    def nondet_string(I, what, n=3):
+        I.nondet_reads.append(what)
+        k = len(I.nondet_reads)
+        return StringV([z3.BitVec("env_%d_%d" % (k, i), 32) for i in range(n)])
+
+    @reg("env::var", "env::var_os")
+    def env_var(I, st, args, info):
+        present = z3.Bool("env_present_%d" % (len(I.nondet_reads) + 1))
+        sv = nondet_string(I, "environment variable")
+        if info.path.last() == "var_os":
+            return Outcomes([(present, opt_some(sv)), (z3.Not(present), OPT_NONE)])
+        return Outcomes([(present, res_ok(sv)), (z3.Not(present), res_err(Adt("VarError", "NotPresent")))])
+
+    @reg("Instant::now")
+    def instant_now(I, st, args, info):
+        I.nondet_reads.append("monotonic clock")
+        return Adt("Instant", None, [z3.BitVec("instant_%d" % len(I.nondet_reads), 64)])
+
+    @reg("thread::current", "Thread::id")
+    def thread_current(I, st, args, info):
+        I.nondet_reads.append("thread identity")
+        return Adt("Thread", None, [z3.BitVec("thread_%d" % len(I.nondet_reads), 64)])
+
+    @reg("RandomState::new", "::random", "rand::random", "thread_rng")
+    def random_state(I, st, args, info):
+        I.nondet_reads.append("random state")
+        return Adt("Random", None, [z3.BitVec("random_%d" % len(I.nondet_reads), 64)])
+
+    @reg("String::with_capacity")
+    def string_with_capacity(I, st, args, info):
+        return StringV(())
+
+    @reg("Vec::with_capacity")
+    def vec_with_capacity(I, st, args, info):
+        return VecV(())
+
+    @reg("String::clear", "Vec::clear")
+    def clear_(I, st, args, info):
+        r = args[0]
+        cur = I.read_ref(r, st)
+        I.write_cell(r.key, r.path, umap(lambda c: StringV(()) if isinstance(c, StringV) else VecV(()), cur), st)
+        return ()
+
+    @reg("String::as_str", "String::as_mut_str")
+    def string_as_str_(I, st, args, info):
+        return umap(lambda x: string_as_str(x) if isinstance(x, StringV) else x, deref_all(I, args[0], st))
+
+    @reg("Vec::pop")
+    def vec_pop(I, st, args, info):
+        r = args[0]
+        cur = I.read_ref(r, st)
+        if isinstance(cur, Union):
+            raise Unsupported("Vec::pop on a union")
+        if not cur.items:
+            return OPT_NONE
+        I.write_cell(r.key, r.path, VecV(cur.items[:-1]), st)
+        return opt_some(cur.items[-1])
+
+    @reg("Vec::extend_from_slice")
+    def vec_extend_from_slice(I, st, args, info):
+        r = args[0]
+        cur = I.read_ref(r, st)
+        add = tuple(seq_of(I, args[1], st))
+        I.write_cell(r.key, r.path, umap(lambda c: VecV(c.items + add), cur), st)
+        return ()
+
+    @reg("Vec::insert")
+    def vec_insert(I, st, args, info):
+        r = args[0]
+        cur = I.read_ref(r, st)
+        i = args[1]
+        if isinstance(cur, Union) or not isinstance(i, int):
+            raise Unsupported("Vec::insert with a symbolic position")
+        if i > len(cur.items):
+            raise PanicExc("insertion index is out of bounds")
+        I.write_cell(r.key, r.path, VecV(cur.items[:i] + (args[2],) + cur.items[i:]), st)
+        return ()
+
+    WS = (9, 10, 11, 12, 13, 32, 0x85, 0xA0, 0x1680) + tuple(range(0x2000, 0x200B)) + (0x2028, 0x2029, 0x202F, 0x205F, 0x3000)
+
+    def is_ws(c):
+        if isinstance(c, int):
+            return c in WS
+        return z3.Or(rng(c, 9, 13), c == 32, c == 0x85, c == 0xA0, c == 0x1680, rng(c, 0x2000, 0x200A), c == 0x2028, c == 0x2029,
+                     c == 0x202F, c == 0x205F, c == 0x3000)
+    char_pred("is_whitespace", is_ws, lambda ch: ord(ch) in WS)
+
+    def char_digit(I, st, args, info):
+        c = deref_all(I, args[0], st)
+        radix = args[1]
+        if not isinstance(radix, int) or not (2 <= radix <= 36):
+            raise Unsupported("char digit with a symbolic radix")
+        which = info.path.last()
+        if isinstance(c, int):
+            ch = chr(c)
+            d = int(ch, 36) if ch.isascii() and ch.isalnum() else None
+            ok = d is not None and d < radix
+            if which == "is_digit":
+                return ok
+            return opt_some(d) if ok else OPT_NONE
+        dec = z3.And(z3.UGE(c, 48), z3.ULE(c, 48 + min(radix, 10) - 1))
+        val = c - 48
+        ok = dec
+        if radix > 10:
+            lo = z3.And(z3.UGE(c, 97), z3.ULE(c, 97 + radix - 11))
+            up = z3.And(z3.UGE(c, 65), z3.ULE(c, 65 + radix - 11))
+            ok = z3.Or(dec, lo, up)
+            val = z3.If(dec, c - 48, z3.If(lo, c - 87, c - 55))
+        if which == "is_digit":
+            return ok
+        return Outcomes([(ok, opt_some(val)), (z3.Not(ok), OPT_NONE)])
+    for pre in ("<impl char>", "char", "methods"):
+        R["%s::is_digit" % pre] = char_digit
+        R["%s::to_digit" % pre] = char_digit
+
+    def trim_model(which):
+        def h(I, st, args, info):
+            v = deref_all(I, args[0], st)
+            if not isinstance(v, StrSlice):
+                items = tuple(as_str_items(I, v, st))
+                v = StrSlice(SymBuf(items, name="owned"), 0, len(items))
+            cs = v.chars()
+            n = len(cs)
+            starts = [(True, 0)]
+            if which in ("trim", "trim_start"):
+                starts, lead = [], True
+                for i in range(n + 1):
+                    stop = True if i == n else b_not(is_ws(cs[i]))
+                    g = b_and(lead, stop)
+                    if g is not False:
+                        starts.append((g, i))
+                    if i < n:
+                        lead = b_and(lead, is_ws(cs[i]))
+                        if lead is False:
+                            break
+            alts = []
+            for g0, a in starts:
+                if which in ("trim", "trim_end"):
+                    trail = True
+                    for j in range(n, a - 1, -1):
+                        stop = True if j == a else b_not(is_ws(cs[j - 1]))
+                        g = b_and(g0, trail, stop)
+                        if g is not False:
+                            alts.append((g, StrSlice(v.buf, v.start + a, v.start + j)))
+                        if j > a:
+                            trail = b_and(trail, is_ws(cs[j - 1]))
+                            if trail is False:
+                                break
+                else:
+                    alts.append((g0, StrSlice(v.buf, v.start + a, v.end)))
+            alts = [(b_simpl(g) if is_sym(g) else g, x) for g, x in alts]
+            if len(alts) == 1:
+                return alts[0][1]
+            return Outcomes(alts)
+        return h
+    for w_ in ("trim", "trim_start", "trim_end"):
+        R["<impl str>::" + w_] = trim_model(w_)
+
+    @reg("<impl str>::strip_prefix", "<impl str>::strip_suffix")
+    def str_strip(I, st, args, info):
+        v = deref_all(I, args[0], st)
+        if not isinstance(v, StrSlice):
+            items = tuple(as_str_items(I, v, st))
+            v = StrSlice(SymBuf(items, name="owned"), 0, len(items))
+        pv = deref_all(I, args[1], st)
+        if isinstance(pv, (Closure, FnItem)):
+            raise Unsupported("strip_prefix/suffix with a predicate")
+        needle = [pv] if is_scalar(pv) else list(as_str_items(I, pv, st))
+        front = info.path.last() == "strip_prefix"
+        cs = v.chars()
+        if len(needle) > len(cs):
+            return OPT_NONE
+        part = cs[:len(needle)] if front else cs[len(cs) - len(needle):]
+        g = b_and(*[(a == b) if isinstance(a, int) and isinstance(b, int) else I.sym_eq(a, b) for a, b in zip(part, needle)])
+        rest = StrSlice(v.buf, v.start + len(needle), v.end) if front else StrSlice(v.buf, v.start, v.end - len(needle))
+        if g is True:
+            return opt_some(rest)
+        if g is False:
+            return OPT_NONE
+        return Outcomes([(g, opt_some(rest)), (b_not(g), OPT_NONE)])
+
+    @reg("<impl str>::char_indices")
+    def char_indices(I, st, args, info):
+        items = list(as_str_items(I, args[0], st))
+        return IterV([(byte_len_of(items[:i]), c) for i, c in enumerate(items)])
+
+    @reg("<impl str>::to_ascii_lowercase", "<impl str>::to_ascii_uppercase", "<impl str>::to_lowercase", "<impl str>::to_uppercase")
+    def str_case(I, st, args, info):
+        which = info.path.last()
+        lower = "lower" in which
+        out = []
+        for c in as_str_items(I, args[0], st):
+            if isinstance(c, Seg):
+                out.append(c)
+            elif isinstance(c, int):
+                if "ascii" in which:
+                    out.append(c + 32 if lower and 65 <= c <= 90 else c - 32 if (not lower) and 97 <= c <= 122 else c)
+                else:
+                    t = chr(c).lower() if lower else chr(c).upper()
+                    out.extend(map(ord, t))
+            else:
+                if "ascii" not in which and I.feasible(st.pc, z3.UGE(c, 0x80)):
+                    raise Unsupported("Unicode case mapping of a symbolic character")
+                out.append(z3.If(z3.And(z3.UGE(c, 65), z3.ULE(c, 90)), c + 32, c) if lower else z3.If(z3.And(z3.UGE(c, 97), z3.ULE(c, 122)), c - 32, c))
+        return StringV(out)
+
+    @reg("<impl str>::eq_ignore_ascii_case")
+    def str_eq_icase(I, st, args, info):
+        a, b = list(as_str_items(I, args[0], st)), list(as_str_items(I, args[1], st))
+        if len(a) != len(b):
+            return False
+
+        def low(c):
+            if isinstance(c, int):
+                return c + 32 if 65 <= c <= 90 else c
+            return z3.If(z3.And(z3.UGE(c, 65), z3.ULE(c, 90)), c + 32, c)
+        return b_and(*[(low(x) == low(y)) if isinstance(x, int) and isinstance(y, int) else I.sym_eq(low(x), low(y)) for x, y in zip(a, b)])
+
+    @reg("Iterator::sum")
+    def it_sum(I, st, args, info):
+        def k(items, s2):
+            if not items:
+                return 0
+            gens = info.path.generics(-1)
+            ty = _interp.short_type(gens[0]) if gens else None
+            if ty not in _interp.INT_TYPES:
+                raise Unsupported("Iterator::sum::<%s>" % ty)
+            acc = deref_all(I, items[0], s2)
+            outs_p = False
+            for x in items[1:]:
+                acc, ov = I.binop("AddWithOverflow", acc, deref_all(I, x, s2), ty)
+                outs_p = b_or(outs_p, ov)
+            if I.profile == "dev" and outs_p is not False:
+                if outs_p is True:
+                    raise PanicExc("attempt to add with overflow")
+                return [(s2.fork(b_not(outs_p)), acc), (s2.fork(outs_p), Panic("attempt to add with overflow", "core::iter::sum"))]
+            return acc
+        return consume(I, args[0], st, k, unordered_ok=True)
+
     for n in ("Option::unwrap", "Result::unwrap", "Option::expect", "Result::expect", "Option::unwrap_or", "Result::unwrap_or",
               "Option::is_none", "Option::is_some", "Result::is_err", "Option::as_ref", "Result::as_ref", "Result::or_else",
               "Result::map_err", "Result::map", "Option::map", "Option::and_then", "Option::is_some_and",
@@ -1985,6 +2318,11 @@ def path_eq(I, st, a, b):
             acc = b_or(acc, g)
     return b_simpl(acc) if is_sym(acc) else acc
 
+
+
+class GuardedIter(IterV):
+    """iterator whose items are (guard, value): each item is present under its guard; only counting consumers are modelled"""
+    __slots__ = ()
 
 
 class UnorderedIter(IterV):
